@@ -1597,14 +1597,19 @@ package serf
 //@   oldlet t0 := recvTotal(s.inCh)
 //@   ensures application_sees_input_order [C16]: s.outCh != nil ==> forwardedInOrder(s.outCh, s.inCh, so0, t0)
 //@   ensures recorder_sees_input_order [C16]: forwardedInOrder(s.streamCh, s.inCh, ss0, t0)
+//@   # nothing is handed to another goroutine to be sent later (that would lose the order)
+//@   oldlet sp0 := spawnN()
+//@   ensures no_helper_goroutines [C16]: spawnN() == sp0
 //@   loop 1 invariant application_in_order [C16]: s.outCh != nil ==> forwardedInOrder(s.outCh, s.inCh, so0, t0)
 //@   loop 1 invariant recorder_in_order [C16]: forwardedInOrder(s.streamCh, s.inCh, ss0, t0)
 //@   loop 1 invariant counters [C16]: t0 <= recvTotal(s.inCh) && so0 <= sentN(s.outCh) && ss0 <= sentN(s.streamCh)
 //@   loop 1 invariant open [C16]: !closed(s.streamCh) && (s.outCh == nil || !closed(s.outCh))
+//@   loop 1 invariant no_helper_goroutines [C16]: spawnN() == sp0
 //@   loop 2 invariant application_in_order [C16]: s.outCh != nil ==> forwardedInOrder(s.outCh, s.inCh, so0, t0)
 //@   loop 2 invariant recorder_in_order [C16]: forwardedInOrder(s.streamCh, s.inCh, ss0, t0)
 //@   loop 2 invariant counters [C16]: t0 <= recvTotal(s.inCh) && so0 <= sentN(s.outCh) && ss0 <= sentN(s.streamCh)
 //@   loop 2 invariant open [C16]: !closed(s.streamCh) && (s.outCh == nil || !closed(s.outCh))
+//@   loop 2 invariant no_helper_goroutines [C16]: spawnN() == sp0
 //@ end
 
 //@ import "strings"
@@ -1620,6 +1625,10 @@ package serf
 //@   oldlet t0 := recvTotal(s.inCh)
 //@   ensures application_sees_input_order [C16]: s.outCh != nil ==> forwardedInOrder(s.outCh, s.inCh, so0, t0)
 //@   ensures internal_queries_not_forwarded [C16]: s.outCh != nil ==> forall(func(k int) bool { return so0 <= k && k < sentN(s.outCh) ==> !isInternalQuery(sentAt(s.outCh, k)) })
+//@   # the only goroutines started are the handlers of internal queries; forwarding is never handed to a helper
+//@   oldlet sp0 := spawnN()
+//@   ensures only_query_handlers_spawned [C16]: forall(func(i int) bool { return sp0 <= i && i < spawnN() ==> spawnIs(i, "serfQueries.handleQuery") })
+//@   loop 1 invariant only_query_handlers_spawned [C16]: sp0 <= spawnN() && forall(func(i int) bool { return sp0 <= i && i < spawnN() ==> spawnIs(i, "serfQueries.handleQuery") })
 //@   loop 1 invariant application_in_order [C16]: s.outCh != nil ==> forwardedInOrder(s.outCh, s.inCh, so0, t0)
 //@   loop 1 invariant internal_queries_not_forwarded [C16]: s.outCh != nil ==> forall(func(k int) bool { return so0 <= k && k < sentN(s.outCh) ==> !isInternalQuery(sentAt(s.outCh, k)) })
 //@   loop 1 invariant counters [C16]: t0 <= recvTotal(s.inCh) && so0 <= sentN(s.outCh) && (s.outCh == nil || !closed(s.outCh))
